@@ -324,6 +324,22 @@ def main(argv=None):
         if doc and doc.get('detail'): print('      replay: %s' % str(doc['detail'])[:400])
         print('VIOLATION property=%s replay=%s%s' % (prop, rp, suffix))
     if violations and exit_code == 0: exit_code = 1
+    # ---- an undecided obligation of a contract that has a replay builder: the builder's scenarios run on the real code; a failure
+    #      reproduced there is definitive (a concrete input), a pass leaves the obligation undecided
+    still = []; tried = {}
+    for o, r in undecided:
+        c = core.CONTRACTS.get(o['func'])
+        if c is None or not c.replay: still.append((o, r)); continue
+        if o['func'] not in tried:
+            tried[o['func']] = run_replay(core, prop, dict(o, trace=o['trace'] + ['all solvers undecided: replay scenarios on the real code']), dict(r, output='', file=None), outdir)
+        rp, doc = tried[o['func']]
+        if doc and doc.get('reproduced'):
+            print('failed obligation: %s [undecided by the solvers; refuted by replay on the real code]' % o['name'])
+            print('      replay: %s' % str(doc.get('detail'))[:400])
+            print('VIOLATION property=%s replay=%s' % (prop, rp))
+            violations.append((o, dict(r, solver='replay on the real code', secs=0.0))); exit_code = 1
+        else: still.append((o, r))
+    undecided = still
     for o, r in undecided:
         print('UNDECIDED %s (%s)' % (o['name'], r['output'].replace('\n', ' | ')[:200]))
     if (undecided or limits) and exit_code == 0:
